@@ -123,11 +123,20 @@ package types
 //@   requires header.bound: headerGasLimit <=u 0x7fffffffffffffff
 //@   ensures def: err == nil <==> d <u parentGasLimit / 1024 && headerGasLimit >=u 5000
 //@
-//@ // the EIP-1559 base fee prescribed by the parent (big-integer formula, not modelled: a function of the parent)
+//@ // the EIP-1559 base fee prescribed by the parent: a function of the parent (calcBaseFee), whose value is the EIP-1559
+//@ // formula over mathematical integers (big integers are modelled as such): target T = gasLimit / 2; unchanged when
+//@ // gasUsed == T; B + max(B * (gasUsed - T) / T / 8, 1) above; max(B - B * (T - gasUsed) / T / 8, 0) below
 //@ spec calcBaseFee(pp: obj): obj
 //@ func CalcBaseFee(parent) (result)
 //@   props C18
+//@   let pok = bignumok(parent.Difficulty) && bignumok(parent.BaseFee)
+//@   let B = bigval(bigparse(parent.BaseFee))
+//@   let U = parent.GasUsed
+//@   let T = parent.GasLimit / 2
 //@   trusts def: result == calcBaseFee(pack(parent)) && result != nil
+//@   ensures formula.same: pok && U == T ==> bigval(result) == B
+//@   ensures formula.up:   pok && U >u T ==> bigval(result) == iadd(B, imax(idiv(idiv(imul(B, nat(U - T)), nat(T)), 8), 1))
+//@   ensures formula.down: pok && U <u T ==> bigval(result) == imax(isub(B, idiv(idiv(imul(B, nat(T - U)), nat(T)), 8)), 0)
 //@
 //@ // EIP-1559: gas limit within bounds of the parent's, base fee present and equal to the prescribed one
 //@ func VerifyEip1559Header(parent, header) (err)
